@@ -76,7 +76,7 @@ SITES = {
 ESC = "\x1b"
 HDR = ESC + "[1m" + ESC + "[31m"
 RE_MISSING = re.compile(r"Missing required field '([^']+)' when constructing '([^']+)'")
-RE_TRAIT = re.compile(r"Trait '([^']+)' requires method '([^']+)' to be implemented")
+RE_TRAIT = re.compile(r"Trait '([^']+)' requires (?:method '([^']+)' to be implemented|'[^']+'::\w+ to match its signature)")
 FIXED = ("incan_stdlib", "incan_derive", "serde", "serde_json", "axum", "tokio")
 
 
@@ -121,10 +121,13 @@ def case_ctor(rng, name, nfields, ndefault, nprovided):
             "provided": provided, "cmds": ["check", "emit", "build"]}
 
 
-def case_trait(rng, name, nmeth, nbody, nimpl, klass):
+def case_trait(rng, name, nmeth, nbody, nimpl, klass, nmismatch=0):
     ms = rng.sample(WORDS, nmeth)
     body = set(rng.sample(ms, nbody))
-    impl = set(rng.sample([m for m in ms if m not in body], min(nimpl, nmeth - nbody)))
+    rest = [m for m in ms if m not in body]
+    impl = set(rng.sample(rest, min(nimpl, len(rest))))
+    rest = [m for m in rest if m not in impl]
+    mism = set(rng.sample(rest, min(nmismatch, len(rest))))
     src = "trait Shape:\n"
     for m in ms:
         src += "    def %s(self) -> int:%s\n" % (m, "\n        return 1" if m in body else " ...")
@@ -132,9 +135,11 @@ def case_trait(rng, name, nmeth, nbody, nimpl, klass):
     for m in ms:
         if m in impl:
             src += "    def %s(self) -> int:\n        return 2\n" % m
+        if m in mism:
+            src += "    def %s(self, extra: int) -> str:\n        return \"x\"\n" % m
     src += "\ndef main() -> None:\n    println(1)\n"
-    return {"name": name, "kind": "trait", "files": {"main.incn": src}, "tr": "Shape",
-            "methods": [(m, 0 if m in body else 1 if m in impl else 2) for m in ms], "cmds": ["check", "emit", "build"]}
+    return {"name": name, "kind": "trait", "files": {"main.incn": src}, "tr": "Shape", "ty": "Sq",
+            "methods": [(m, 0 if m in body else 1 if m in impl else 3 if m in mism else 2) for m in ms], "cmds": ["check", "emit", "build"]}
 
 
 def case_multi(rng, name, paths):
@@ -161,10 +166,85 @@ def case_hint(name):
 
 def case_fixtures(name):
     src = ""
-    for f in ["db", "tmpdir", "client", "cfg", "clock"]:
-        src += "@fixture(autouse=true)\ndef %s() -> int:\n    return 1\n\n" % f
-    src += "def test_one() -> None:\n    assert 1 == 1\n"
-    return {"name": name, "kind": "fixtures", "files": {"test_fx.incn": src}, "cmds": ["test"], "entry": "."}
+    for i, f in enumerate(["db", "tmpdir", "client", "cfg", "clock", "zeta", "alpha"]):
+        src += "@fixture%s\ndef %s(%s) -> int:\n    return 1\n\n" % (
+            "(autouse=true)" if i % 2 == 0 else ("(scope=\"module\")" if i % 3 == 0 else ""), f, "db: int" if f == "client" else "")
+    src += "def test_one(cfg: int) -> None:\n    assert 1 == 1\n"
+    fx = [(f, i % 2 == 0) for i, f in enumerate(["db", "tmpdir", "client", "cfg", "clock", "zeta", "alpha"])]
+    return {"name": name, "kind": "fixtures", "files": {"test_fx.incn": src}, "cmds": ["test"], "entry": ".", "fixtures": fx}
+
+
+WEB_METHODS = ["GET", "POST", "PUT", "DELETE", "PATCH"]
+
+
+def case_web(rng, name, nroutes, max_methods):
+    """web program: several routes, each with 1..max_methods HTTP methods (mixed spellings, duplicates), JSON models"""
+    src = "from web import App, route, Response, Json\n\n@derive(Serialize)\nmodel Item:\n    id: int\n    name: str\n\n"
+    for i in range(nroutes):
+        k = 1 + (i % max_methods)
+        ms = rng.sample(WEB_METHODS, k)
+        if i % 4 == 3:
+            ms.append(ms[0].lower())
+        if i % 3 == 0:
+            src += "@route(\"/r%d\", methods=[%s])\nasync def h%d() -> Response:\n    return Response.ok()\n\n" % (i, ", ".join('"%s"' % m for m in ms), i)
+        elif i % 3 == 1:
+            src += "@route(\"/api/%d/{id}\", methods=[%s])\nasync def h%d(id: int) -> Json[Item]:\n    return Json(Item(id=id, name=\"n\"))\n\n" % (
+                i, ", ".join('"%s"' % m for m in ms), i)
+        else:
+            src += "@route(\"/plain%d\")\nasync def h%d() -> Response:\n    return Response.html(\"<p>%d</p>\")\n\n" % (i, i, i)
+    src += "def main() -> None:\n    app = App()\n    app.run(port=8080)\n"
+    return {"name": name, "kind": "web", "files": {"main.incn": src}, "cmds": ["check", "emit", "build", "emit-many"], "nroutes": nroutes}
+
+
+def case_chain(name, n):
+    src = 'const C0: str = "c"\n' + "".join('const C%d: str = C%d + "-%d"\n' % (i, i - 1, i) for i in range(1, n))
+    src += "\ndef main() -> None:\n    println(C%d)\n" % (n - 1) if n else "\ndef main() -> None:\n    println(1)\n"
+    return {"name": name, "kind": "chain", "files": {"main.incn": src}, "cmds": ["emit", "emit-many"], "n": n}
+
+
+def case_misc():
+    """shapes the examples never use: duplicate / unknown constructor fields, non-ASCII text, import cycle, duplicate imports"""
+    out = []
+    out.append({"name": "ms_dupfield", "kind": "misc", "cmds": ["check", "emit"], "files": {"main.incn":
+        "model P:\n    a: int\n    b: int\n    c: int\n\ndef main() -> None:\n    p = P(a=1, a=2, zz=3, yy=4)\n    println(1)\n"}})
+    out.append({"name": "ms_unicode", "kind": "misc", "cmds": ["check", "emit", "build", "fmt-diff", "emit-many"], "files": {"main.incn":
+        "const GREETING: str = \"h\u00e9llo \u4e16\u754c \U0001F600\"\nconst G2: str = GREETING + \" \u00fc\"\n\nmodel P\u00e9:\n    n\u00e4me: str\n\n"
+        "def main() -> None:\n    p = P\u00e9()\n    println(f\"{G2} \u00e7a\")\n"}})
+    out.append({"name": "ms_cycle", "kind": "misc", "cmds": ["check", "emit", "build", "collector"], "files": {
+        "main.incn": "from a import fa\n\ndef main() -> None:\n    println(fa())\n",
+        "a.incn": "from b import fb\n\npub def fa() -> int:\n    return fb()\n", "b.incn": "from a import fa\n\npub def fb() -> int:\n    return 1\n"}})
+    out.append({"name": "ms_dupimport", "kind": "misc", "cmds": ["check", "emit", "build"], "files": {"main.incn":
+        "import rust::rand\nfrom rust::rand import random\nimport rust::rand as r2\nfrom rust::std::collections import HashMap\nimport rust::regex\n\ndef main() -> None:\n    println(1)\n"}})
+    out.append({"name": "ms_empty", "kind": "misc", "cmds": ["check", "emit", "fmt-diff"], "files": {"main.incn": ""}})
+    return out
+
+
+def corpus_cases(chk):
+    """the repository's own programs (examples, codegen snapshots, fixtures, stdlib) as oracle input"""
+    roots = ["examples", "tests/codegen_snapshots", "tests/fixtures", "stdlib", "benchmarks"]
+    found = []
+    for r in roots:
+        for d, dirs, files in os.walk(os.path.join(vlib.REPO, r)):
+            dirs.sort()
+            for f in sorted(files):
+                if f.endswith(".incn"):
+                    found.append(os.path.join(d, f))
+    if chk.tier == "quick":
+        found = sorted(chk.rng.sample(found, min(40, len(found))))
+    cases = []
+    for i, path in enumerate(found):
+        d = os.path.dirname(path)
+        files = {}
+        for dd, dirs, fs in os.walk(d):
+            for f in fs:
+                if f.endswith(".incn") and len(files) < 40:
+                    try:
+                        files[os.path.relpath(os.path.join(dd, f), d)] = open(os.path.join(dd, f), encoding="utf-8").read()
+                    except (OSError, UnicodeDecodeError):
+                        pass
+        cases.append({"name": "cp%03d" % i, "kind": "corpus", "files": files, "entry": os.path.basename(path),
+                      "cmds": ["emit"] if chk.tier == "quick" else ["check", "emit", "fmt-diff", "emit-many"], "origin": os.path.relpath(path, vlib.REPO)})
+    return cases
 
 
 def stress_cases(n=64, chain=200):
@@ -188,7 +268,7 @@ def stress_cases(n=64, chain=200):
     cases.append({"name": "st_ctor_ok", "kind": "stress", "files": {"main.incn": src}, "cmds": ["check", "emit", "build", "emit-many"]})
     # trait with n required methods: none implemented (model) / all implemented (class)
     tr = "trait Wide:\n" + "".join("    def %s(self) -> int: ...\n" % m for m in names)
-    cases.append({"name": "st_trait", "kind": "trait", "tr": "Wide", "methods": [(m, 2) for m in names], "cmds": ["check", "emit"],
+    cases.append({"name": "st_trait", "kind": "trait", "tr": "Wide", "ty": "Sq", "methods": [(m, 2) for m in names], "cmds": ["check", "emit"],
                   "files": {"main.incn": tr + "\nmodel Sq with Wide:\n    s: int\n\ndef main() -> None:\n    println(1)\n"}})
     impl = "".join("    def %s(self) -> int:\n        return 1\n" % m for m in names)
     cases.append({"name": "st_trait_ok", "kind": "stress", "cmds": ["check", "emit", "build", "emit-many"],
@@ -214,7 +294,7 @@ def stress_cases(n=64, chain=200):
                   "files": {"util.incn": util, "main.incn": "from util import hidden\n\ndef main() -> None:\n    println(hidden())\n"}})
     # n fixtures
     src = "".join("@fixture(autouse=true)\ndef %s() -> int:\n    return 1\n\n" % f for f in names) + "def test_one() -> None:\n    assert 1 == 1\n"
-    cases.append({"name": "st_fixtures", "kind": "fixtures", "files": {"test_fx.incn": src}, "cmds": ["test"], "entry": "."})
+    cases.append({"name": "st_fixtures", "kind": "fixtures", "files": {"test_fx.incn": src}, "cmds": ["test"], "entry": ".", "fixtures": [(f, True) for f in names]})
     # every known crate
     src = "".join("import rust::%s\n" % c for c in KNOWN_CRATES) + "\n@derive(Serialize)\nmodel P:\n    x: int\n\nasync def f() -> int:\n    return 1\n\ndef main() -> None:\n    println(1)\n"
     cases.append({"name": "st_crates", "kind": "crates", "files": {"main.incn": src}, "crates": list(KNOWN_CRATES), "serde": True, "tokio": True,
@@ -230,11 +310,12 @@ def gen_cases(chk):
         case_crates(rng, "cr3", 3), case_crates(rng, "cr5", 5, serde=True), case_crates(rng, "cr4u", 3, unknown=1, asyn=True),
         case_ctor(rng, "ct0", 4, 1, 3), case_ctor(rng, "ct1", 4, 1, 2), case_ctor(rng, "ct3", 5, 1, 1), case_ctor(rng, "ct5", 6, 0, 1),
         case_trait(rng, "tr0", 3, 1, 2, False), case_trait(rng, "tr1", 3, 1, 1, False), case_trait(rng, "tr3", 5, 1, 1, False),
-        case_trait(rng, "tr4c", 5, 0, 1, True),
+        case_trait(rng, "tr4c", 5, 0, 1, True), case_trait(rng, "tr5m", 7, 1, 1, False, nmismatch=3), case_trait(rng, "tr6mc", 6, 0, 2, True, nmismatch=2),
         case_multi(rng, "mf1", [["util"]]),
         case_multi(rng, "mf5", [["db", "models"], ["db", "conn"], ["util"], ["svc", "api", "v1"], ["svc", "api", "v2"], ["svc", "core"], ["zeta"]]),
         case_fmt("fmt"), case_hint("hint"), case_fixtures("fx"),
-    ] + stress_cases()
+        case_web(rng, "web1", 1, 1), case_web(rng, "web2", 2, 2), case_web(rng, "web6", 6, 5), case_web(rng, "web17", 17, 5),
+    ] + stress_cases() + [case_chain("ch%d" % n, n) for n in (1, 2, 16, 17, 18, 19, 33, 65)] + case_misc() + corpus_cases(chk)
     if big:
         for i in range(12):
             cases.append(case_crates(rng, "crx%d" % i, rng.randint(0, 6), serde=rng.random() < .5, asyn=rng.random() < .5, unknown=rng.randint(0, 2)))
@@ -476,8 +557,11 @@ def model_terms(cases, observed):
                 zs(c["ty"]), coq_list([zs(p) for p in c["provided"]]),
                 coq_list(["(%s, %s)" % (zs(f), "true" if d else "false") for f, d in c["fields"]]))
         elif c["kind"] == "trait":
-            t = "(render_trait %s %s, ([] : str), ([] : list str))" % (
-                zs(c["tr"]), coq_list(["(%s, %d)" % (zs(m), st) for m, st in c["methods"]]))
+            t = "(render_trait %s %s %s, ([] : str), ([] : list str))" % (
+                zs(c["tr"]), zs(c.get("ty", "Sq")), coq_list(["(%s, %d)" % (zs(m), st) for m, st in c["methods"]]))
+        elif c["kind"] == "fixtures":
+            fl = coq_list(["(%s, %s)" % (zs(f), "true" if a else "false") for f, a in reversed(c["fixtures"])])
+            t = "(fixture_listing_site %s, ([] : str), autouse_site %s)" % (fl, fl)
         elif c["kind"] == "multi":
             dirs = sorted({tuple(p[:i]) for p in c["paths"] for i in range(1, len(p))})
             c["dirs"] = dirs
@@ -619,6 +703,11 @@ def run(chk):
                         ok = real == msgs  # the sites sort by name: exact order
                         if not ok:
                             corr_bad.append({"case": c["name"], "site": c["kind"], "model": msgs, "impl": real, "run": i})
+                    elif c["kind"] == "fixtures":
+                        r = results[(c["name"], "test", i, 0)]
+                        real = ["  - " + x for x in re.findall(r"(?m)^  - (\w+):", r["stdout"])]
+                        if real != msgs or texts != sorted(f for f, a in c["fixtures"] if a):
+                            corr_bad.append({"case": c["name"], "site": "fixtures", "model": [msgs, texts], "impl": real, "run": i})
                     elif c["kind"] == "multi":
                         r = results[(c["name"], "build", i, 0)]
                         main = r["files"].get("src/main.rs", "")
@@ -642,6 +731,70 @@ def run(chk):
         else:
             res["tie_ok"] = False
             res["broken"].append({"what": "model", "message": "C12/Model.v does not build"})
+        arms = {}
+
+        def hit(a, n=1):
+            arms[a] = arms.get(a, 0) + n
+        for a in ("ctor_diag_of.has_default", "ctor_diag_of.provided", "ctor_diag_of.missing", "trait_diag_of.HasBody", "trait_diag_of.Implemented",
+                  "trait_diag_of.Missing", "trait_diag_of.Mismatch", "emit_site.none", "emit_site.one", "emit_site.many", "ksort.0", "ksort.1", "ksort.many",
+                  "pushes_of.dir_match", "pushes_of.no_match", "dedup_adj.duplicate", "dedup_adj.single", "top_level_site", "mod_rs_site",
+                  "manifest.rust_dep.Some", "manifest.skip_already_added", "manifest.no_rust_dep", "manifest.serde", "manifest.tokio",
+                  "fixture_listing_site", "autouse_site.true", "autouse_site.false", "hint_site", "memo_all(differential)", "collector_site.entry_filtered"):
+            arms[a] = 0
+        for c in (meta if model_ok else []):
+            if c["kind"] == "ctor":
+                miss = 0
+                for f, d in c["fields"]:
+                    if d:
+                        hit("ctor_diag_of.has_default")
+                    elif f in c["provided"]:
+                        hit("ctor_diag_of.provided")
+                    else:
+                        hit("ctor_diag_of.missing")
+                        miss += 1
+                hit("emit_site.none" if miss == 0 else "emit_site.one" if miss == 1 else "emit_site.many")
+                hit("ksort.many" if len(c["fields"]) > 1 else "ksort.%d" % len(c["fields"]))
+            elif c["kind"] == "trait":
+                for m, st in c["methods"]:
+                    hit("trait_diag_of." + ["HasBody", "Implemented", "Missing", "Mismatch"][st])
+                nd = sum(1 for _, st in c["methods"] if st >= 2)
+                hit("emit_site.none" if nd == 0 else "emit_site.one" if nd == 1 else "emit_site.many")
+            elif c["kind"] == "multi":
+                hit("top_level_site")
+                for d in c["dirs"]:
+                    hit("mod_rs_site")
+                    subs = [p[len(d)] for p in c["paths"] if len(p) > len(d) and tuple(p[:len(d)]) == tuple(d)]
+                    hit("pushes_of.dir_match", len(subs))
+                    hit("pushes_of.no_match", len(c["paths"]) - len(subs))
+                    hit("dedup_adj.duplicate" if len(set(subs)) < len(subs) else "dedup_adj.single")
+                tops = [p[0] for p in c["paths"]]
+                hit("dedup_adj.duplicate" if len(set(tops)) < len(tops) else "dedup_adj.single")
+            elif c["kind"] == "crates":
+                n = len([x for x in c["crates"] if x not in FIXED])
+                hit("manifest.rust_dep.Some", n)
+                hit("manifest.skip_already_added", len(c["crates"]) - n)
+                if n == 0:
+                    hit("manifest.no_rust_dep")
+                hit("ksort.many" if len(c["crates"]) > 1 else "ksort.%d" % len(c["crates"]))
+                if c["serde"]:
+                    hit("manifest.serde")
+                if c["tokio"]:
+                    hit("manifest.tokio")
+            elif c["kind"] == "fixtures":
+                hit("fixture_listing_site")
+                hit("autouse_site.true", sum(1 for _, a in c["fixtures"] if a))
+                hit("autouse_site.false", sum(1 for _, a in c["fixtures"] if not a))
+        for c in cases:
+            if c["kind"] == "hint":
+                hit("hint_site")
+            if "emit-many" in c["cmds"] and c["kind"] in ("stress", "chain"):
+                hit("memo_all(differential)")
+            if "collector" in c["cmds"]:
+                hit("collector_site.entry_filtered")
+        chk.coverage["model_arm_hits"] = arms
+        zero = [a for a, n in arms.items() if n == 0]
+        if zero and model_ok:
+            chk.notes.append("GENERATOR BUG: model arms never reached: %s" % zero)
         chk.coverage["traces_validated_against_impl"] = n_corr
         chk.coverage["correspondence_mismatches"] = len(corr_bad)
 
